@@ -23,13 +23,22 @@ use std::sync::atomic::{AtomicU64, Ordering::Relaxed};
 
 const SYMS: [&str; 7] = ["0", "1", "9", "a", "B", "_", "é"];
 
+/// Second alphabet: characters that are numeric in Unicode but no ASCII digits (superscript two, Arabic-Indic
+/// three, the vulgar fraction one half, fullwidth one) next to ASCII digits and a letter: only ASCII digit
+/// runs compare by value, everything else is text compared bytewise.
+const SYMS2: [&str; 7] = ["2", "10", "x", "\u{b2}", "\u{663}", "\u{bd}", "\u{ff11}"];
+
 fn all_strings(max_len: usize) -> Vec<String> {
+    all_strings_over(&SYMS, max_len)
+}
+
+fn all_strings_over(syms: &[&str], max_len: usize) -> Vec<String> {
     let mut out = vec![String::new()];
     let mut level = vec![String::new()];
     for _ in 0..max_len {
         let mut next = Vec::new();
         for s in &level {
-            for sym in SYMS {
+            for sym in syms {
                 next.push(format!("{s}{sym}"));
             }
         }
@@ -103,7 +112,14 @@ fn ord_i8(o: Ordering) -> i8 {
 }
 
 fn check_natural(cli: &Cli, r: &Report) {
-    let strings = all_strings(4);
+    check_natural_over(cli, r, all_strings(4), all_strings(3).len());
+    // strings of <= 3 symbols over the second alphabet (non-ASCII numerics), all triples
+    let second = all_strings_over(&SYMS2, 3);
+    let m = second.len();
+    check_natural_over(cli, r, second, m);
+}
+
+fn check_natural_over(cli: &Cli, r: &Report, strings: Vec<String>, quick_m: usize) {
     let n = strings.len();
     // full comparison matrix over the real comparator
     let matrix: Vec<i8> = {
@@ -148,7 +164,7 @@ fn check_natural(cli: &Cli, r: &Report) {
         }
     }
     // transitivity on all triples of the sub-alphabet (length <= 3; thorough: <= 4)
-    let m = if cli.thorough { n } else { all_strings(3).len() };
+    let m = if cli.thorough { n } else { quick_m };
     par_for((m * m) as u64, |ij| {
         let (i, j) = (ij as usize / m, ij as usize % m);
         let a = matrix[i * n + j];
@@ -171,7 +187,7 @@ fn check_natural(cli: &Cli, r: &Report) {
         }
     });
     r.add(&r.evaluations, (m * m * m) as u64);
-    r.force_sample(json!({"natural_cmp_strings": n, "transitivity_triples": (m as u64).pow(3), "examples": [strings[5], strings[77], strings[1234]]}));
+    r.force_sample(json!({"natural_cmp_strings": n, "transitivity_triples": (m as u64).pow(3), "examples": [strings[5], strings[77], strings[n / 2]]}));
     r.outcome(format!("natural:{}", matrix.iter().filter(|x| **x == 0).count()));
 }
 
@@ -1036,7 +1052,7 @@ fn main() {
         check_siblings(&cli, &r);
     }
     r.set_bounds(json!({
-        "natural_cmp": {"alphabet": SYMS, "max_len": 4, "transitivity_max_len": if cli.thorough {4} else {3}},
+        "natural_cmp": {"alphabet": SYMS, "second_alphabet_max_len_3": SYMS2, "max_len": 4, "transitivity_max_len": if cli.thorough {4} else {3}},
         "arg_labels": {"numeric": NUMERIC, "identifiers": IDENTS, "odd": ODD},
         "arg_lists": {"pools": ["integers","big integers","floats","identifiers","mixed"], "max_len": if cli.thorough {5} else {4}},
         "siblings": {"kinds": ["bench","args bench","group module","plain module (two items, the later one after every sibling)","generic types","generic consts","plain module in a plain module"], "names": ["a2","a10","b","A","a02"], "max": if cli.thorough {4} else {3}, "line_modes": ["declaration order","reversed","one line, distinct columns"]}
